@@ -834,7 +834,16 @@ func checkLoopsHaveNoEarlyExit(c *Ctx, rule string, fn *ssa.Function, what strin
 	}
 	p := c.P
 	n := 0
-	for _, l := range loopsOf(fn) {
+	// the loop may have been extracted into a same-package helper the function calls
+	loops := loopsOf(fn)
+	if len(loops) == 0 {
+		for _, ci := range callsOf(fn) {
+			if g := ci.Common().StaticCallee(); g != nil && g.Pkg == fn.Pkg && len(g.Blocks) > 0 {
+				loops = append(loops, loopsOf(g)...)
+			}
+		}
+	}
+	for _, l := range loops {
 		n++
 		exits := l.EarlyExits(p)
 		c.Check(rule, fmt.Sprintf("visits-every-element:%s#%d", fn.Name(), n), l.Header.Instrs[0].Pos(), len(exits) == 0,
